@@ -66,6 +66,7 @@ func (eng *Engine) verifyFunc(key string) *FuncReport {
 	ex := newExec(eng, fn, c)
 	rep.exec = ex
 	ex.safety = c.Safety
+	ex.reveal = c.Reveal
 	ex.budget = 1
 	wm0 := Const("wm0", IntSort)
 	st := &State{pc: True, locals: map[*ssa.Alloc][]*Term{}, heap: newHeap(wm0), wm: wm0}
@@ -78,6 +79,7 @@ func (eng *Engine) verifyFunc(key string) *FuncReport {
 		fr.args = append(fr.args, v)
 	}
 	fr.entry = st
+	ex.assumeInvariants(st)
 	for j, r := range c.Requires {
 		g, err := ex.compileBool(fr, st, st, r.E, false)
 		if err != nil {
@@ -114,11 +116,14 @@ func (eng *Engine) verifyFunc(key string) *FuncReport {
 // frameObligations: every heap location allocated before the call and not named by modifies is unchanged.
 func (ex *Exec) frameObligations(fr *Frame, out *State, entry *State, mods []ModTarget, key string, kind string, labelPrefix string) {
 	allowedAll := false
-	allowed := map[string][]*Term{} // key -> refs whose entry may change; nil entry with present key = whole key
+	var except []string
+	allowed := map[string][]*Term{} // key -> refs whose entry may change
 	whole := map[string]bool{}
 	env := ex.frameEnv(fr, entry, entry)
 	for _, mt := range mods {
 		switch {
+		case mt.All && len(mt.Except) > 0:
+			except = append(except, mt.Except...)
 		case mt.All:
 			allowedAll = true
 		case mt.Key != "":
@@ -142,13 +147,25 @@ func (ex *Exec) frameObligations(fr *Frame, out *State, entry *State, mods []Mod
 	if allowedAll {
 		return
 	}
-	if out.heap.base != entry.heap.base {
-		ex.prove(key, out, kind, labelPrefix+"whole-heap", False, "the body havocs the whole heap (unmodelled construct or unknown callee) but modifies is not *", fr.fn.Pos())
-		return
-	}
 	var keys []string
-	for k := range out.heap.m {
-		keys = append(keys, k)
+	if len(except) > 0 {
+		// everything may change except the keys with these prefixes: those obey the remaining targets
+		for k := range keySortReg {
+			for _, p := range except {
+				if strings.HasPrefix(k, p) {
+					keys = append(keys, k)
+					break
+				}
+			}
+		}
+	} else {
+		if out.heap.base != entry.heap.base {
+			ex.prove(key, out, kind, labelPrefix+"whole-heap", False, "the body havocs the whole heap (unmodelled construct or unknown callee) but modifies is not *", fr.fn.Pos())
+			return
+		}
+		for k := range out.heap.m {
+			keys = append(keys, k)
+		}
 	}
 	sort.Strings(keys)
 	for _, k := range keys {
@@ -241,6 +258,10 @@ func (ex *Exec) targetKeys(env *Env, mt ModTarget) (keys []string, ref *Term, er
 func (eng *Engine) compileClosed(ax *Axiom, goal bool) (*Term, error) {
 	ex := newExec(eng, nil, nil)
 	ex.inSpec = 1
+	ex.reveal = map[string]bool{}
+	for _, r := range ax.Reveal {
+		ex.reveal[r] = true
+	}
 	st := &State{pc: True, locals: map[*ssa.Alloc][]*Term{}, heap: newHeap(Const("wm.ax", IntSort)), wm: Const("wm.ax", IntSort)}
 	env := &Env{ex: ex, vars: map[string]Value{}, st: st, old: st, pkg: eng.pkgByName[ax.Pkg]}
 	return env.boolExpr(ax.E, goal)
@@ -414,7 +435,7 @@ func (eng *Engine) scriptR(o *Obligation, wantModel bool, relaxed bool) (string,
 		}
 		hyps = append(keep, hyps...)
 	}
-	sc := &Script{Asserts: append(append([]*Term{}, hyps...), o.PC, Not(o.Goal))}
+	sc := &Script{Asserts: append(append([]*Term{}, hyps...), o.PC, Not(o.Goal)), Observe: observables(o.Goal)}
 	return sc.Render("ALL", nil, wantModel), axNames, true
 }
 
@@ -431,8 +452,29 @@ func (eng *Engine) script(o *Obligation, wantModel bool) (string, []string) {
 		ax, axNames = eng.relevantAxioms(core, "", nil)
 		hyps = append(ax, hyps...)
 	}
-	sc := &Script{Asserts: append(append([]*Term{}, hyps...), o.PC, Not(o.Goal))}
+	sc := &Script{Asserts: append(append([]*Term{}, hyps...), o.PC, Not(o.Goal)), Observe: observables(o.Goal)}
 	return sc.Render("ALL", nil, wantModel), axNames
+}
+
+// observables: closed scalar select / function applications inside the goal, reported with the model.
+func observables(goal *Term) []*Term {
+	var out []*Term
+	seen := map[*Term]bool{}
+	var walk func(t *Term)
+	walk = func(t *Term) {
+		if seen[t] || len(out) >= 80 {
+			return
+		}
+		seen[t] = true
+		if (t.Op == "select" || t.Op == "uf") && !t.open && t.Sort.Kind != SArray {
+			out = append(out, t)
+		}
+		for _, a := range t.Args {
+			walk(a)
+		}
+	}
+	walk(goal)
+	return out
 }
 
 func (eng *Engine) reachScript(rep *FuncReport) string {
